@@ -368,12 +368,14 @@ impl Clone for ZB {
 
 // ---- 10: TK(u64): the value type tracked by `ChangeTracker` (C18).  `Clone` keeps the value,
 // `PartialEq` compares it, and it has no destructor (so it does not take part in the drop ledger).
+// (size 16, alignment 8: a row stride that differs from the alignment)
 #[derive(Clone, PartialEq, Debug)]
-pub struct TK(pub u64);
+#[repr(C)]
+pub struct TK(pub u64, pub u32);
 impl Comp for TK {
     const IDX: usize = 10;
     fn new(s: u64) -> Self {
-        TK(s)
+        TK(s, 0)
     }
     fn serial(&self) -> u64 {
         self.0
